@@ -19,7 +19,7 @@ checks = {
     "C04": dict(engine="chainmc", cat="model_checking", tech="explicit-state BFS over real-handler histories; cross-record lifecycle invariants on every reachable state",
                 text="Every reachable state (two tenants, colliding dseq 1/12, two groups, two providers, overdraft reachable) satisfies the order/bid/lease/group/deployment agreement stated in C04, decoded independently from the raw stores.", ref="6 C04"),
     "C05": dict(engine="chainmc", cat="model_checking", tech="explicit-state BFS over real-handler histories; market<->escrow join invariants per state, refund equation per transition",
-                text="Every reachable state satisfies lease active<=>payment open, bid live<=>bid account open, deployment active<=>account open, bid deposit held=>deployment active; every closing transition refunds exactly the unspent balance to the owner.", ref="6 C05"),
+                text="Every reachable state satisfies lease active<=>payment open, bid live<=>bid account open, deployment active<=>account open, bid deposit held=>deployment active; on every transition a deployment account transfers at most (prices of the leases active before it) x (blocks since its settlement); every closing transition refunds exactly the unspent balance to the owner.", ref="6 C05"),
     "C02": dict(engine="chainmc", cat="model_checking", tech="explicit-state BFS + exhaustive parameter grid (deposit x rates x stagger x gap x trigger) on the real app; independent integer settlement ledger per transition, closed-form accrual per state",
                 text="Every settlement executed anywhere in the explored histories is compared with an independent ledger computed from the pre-state only (funded: rate x blocks for every payee; overdraft: everything distributed, each share within [rate*n, rate*(n+1)]); every open payment's accrual equals rate x (settled - lease creation height); transferred == credited; grid enumerates all deposits 1..10(14), 1-3 payments with rates 1..3, staggered creation, gaps 0..6(9), 8 settle-triggering tails.", ref="6 C02"),
     "C06": dict(engine="chainmc", cat="model_checking", tech="explicit-state BFS over colliding-id histories with whole-store diff confinement per transition + signer table + real signed DeliverTx matrix (message type x signer)",
